@@ -6,89 +6,22 @@
     Negative results: with the shared guard stack the same programs yield a spurious "Recursive reference"
     error, a poisoned mutex with panics in both threads, or a process abort; and with cyclic eager references
     the cache protocol deadlocks even with the fixed guard. *)
-From PdfV Require Import Base.Prelude Gen.Generated Cache.Model Cache.Conc.
+From PdfV Require Import Base.Prelude Gen.Generated Cache.Model Cache.Conc Cache.Proofs.
 
-Section CP.
-  Variable prog : ref -> comp.
-  Variable rank : ref -> nat.
+(** The sequential answer of a typed call is the chain-free, cache-free denotation [D prog rank ty r] of
+    Cache/Proofs.v (property C12): what get::<ty>(r) returns when it runs alone. *)
+Definition call_ans (seq : tytag -> ref -> outcome) (cl : tcall) : outcome := seq (fst cl) (snd cl).
 
-  Fixpoint bounded1 (n : nat) (p : comp) : Prop :=
-    match p with
-    | Ret _ => True
-    | Call _ r k => (rank r < n)%nat /\ forall o, bounded1 n (k o)
-    end.
+Definition prefix_ok (seq : tytag -> ref -> outcome) (calls : list tcall) (res : list outcome) : Prop :=
+  exists k, res = map (call_ans seq) (firstn k calls).
 
-  Definition acyclic1 : Prop := forall r, bounded1 (rank r) (prog r).
-
-  Fixpoint den1 (n : nat) (r : ref) : outcome :=
-    match n with
-    | O => OutOfFuel
-    | S m => (fix ev (p : comp) : outcome :=
-                match p with
-                | Ret o => o
-                | Call _ r' k => ev (k (den1 m r'))
-                end) (prog r)
-    end.
-
-  Definition D1 (r : ref) : outcome := den1 (S (rank r)) r.       (* the sequential answer *)
-
-  Fixpoint evalD1 (p : comp) : outcome :=
-    match p with
-    | Ret o => o
-    | Call _ r k => evalD1 (k (D1 r))
-    end.
-
-  (* evaluation of a computation against an oracle for the nested gets *)
-  Fixpoint ev1 (d : ref -> outcome) (p : comp) : outcome :=
-    match p with
-    | Ret o => o
-    | Call _ r k => ev1 d (k (d r))
-    end.
-
-  Lemma den1_S m r : den1 (S m) r = ev1 (den1 m) (prog r).
-  Proof.
-    cbn [den1]. generalize (prog r) as p.
-    induction p as [o|ty r' k IH]; cbn [ev1]; [reflexivity|apply IH].
-  Qed.
-
-  Lemma ev1_ext d1 d2 b p :
-    bounded1 b p -> (forall r, (rank r < b)%nat -> d1 r = d2 r) -> ev1 d1 p = ev1 d2 p.
-  Proof.
-    induction p as [o|ty r' k IH]; cbn [ev1 bounded1]; intros Hb Hd; [reflexivity|].
-    destruct Hb as [Hr Hk]. rewrite (Hd r' Hr). apply IH; [apply Hk|exact Hd].
-  Qed.
-
-  Lemma evalD1_ev1 p : evalD1 p = ev1 D1 p.
-  Proof. induction p as [o|ty r' k IH]; cbn [evalD1 ev1]; [reflexivity|apply IH]. Qed.
-
-  Hypothesis Hac : acyclic1.
-
-  Lemma den1_stable : forall n m r, (rank r < n)%nat -> (rank r < m)%nat -> den1 n r = den1 m r.
-  Proof.
-    induction n as [|n IH]; intros m r Hn Hm; [lia|].
-    destruct m as [|m]; [lia|].
-    rewrite !den1_S. apply ev1_ext with (b := rank r); [apply Hac|].
-    intros r' Hr'. apply IH; lia.
-  Qed.
-
-  Lemma D1_eval r : D1 r = evalD1 (prog r).
-  Proof.
-    unfold D1 at 1. rewrite den1_S, evalD1_ev1.
-    apply ev1_ext with (b := rank r); [apply Hac|].
-    intros r' Hr'. unfold D1. apply den1_stable; lia.
-  Qed.
-End CP.
-
-Definition prefix_ok (seq : ref -> outcome) (calls : list ref) (res : list outcome) : Prop :=
-  exists k, res = map seq (firstn k calls).
-
-Definition state_ok (c : ccfg) (seq : ref -> outcome) (progs : list (list ref)) (g : gstate) : Prop :=
+Definition state_ok (c : ccfg) (seq : tytag -> ref -> outcome) (progs : list (list tcall)) (g : gstate) : Prop :=
   aborted g = false /\ (forall rs, poisoned g rs = false) /\
   (forall t, prefix_ok seq (nth t progs []) (results (threads g t))) /\
-  (forall t, finished g t = true -> results (threads g t) = map seq (nth t progs [])) /\
+  (forall t, finished g t = true -> results (threads g t) = map (call_ans seq) (nth t progs [])) /\
   deadlocked c g (length progs) = false.
 
-Definition conc_statement (c : ccfg) (prog : ref -> comp) (seq : ref -> outcome) : Prop :=
+Definition conc_statement (c : ccfg) (prog : tytag -> ref -> comp) (seq : tytag -> ref -> outcome) : Prop :=
   forall progs sched, state_ok c seq progs (run_sched c prog (ginit progs) sched).
 
 (** * generic list facts *)
@@ -138,118 +71,116 @@ Qed.
 (** * the invariant of the fixed guard on an acyclic document *)
 Section Safe.
   Variable c : ccfg.
-  Variable prog : ref -> comp.
+  Variable prog : tytag -> ref -> comp.
   Variable rank : ref -> nat.
   Hypothesis Hpt : per_thread c = true.
-  Hypothesis Hac : acyclic1 prog rank.
-  Variable progs : list (list ref).
+  Hypothesis Hac : acyclic prog rank.
+  Variable progs : list (list tcall).
 
-  Notation D := (D1 prog rank).
-  Notation evD := (evalD1 prog rank).
-  Notation bnd := (bounded1 rank).
+  Notation D := (Proofs.D prog rank).
+  Notation evD := (evalD prog rank).
+  Notation bnd := (bounded rank).
+  Notation Dc := (call_ans D).
 
-  (* the frames below a frame of [child], down to the top-level call [bot] *)
-  Fixpoint lower_ok (child : ref) (st : list frame) (bot : ref) : Prop :=
+  Lemma D_eval ty r : D ty r = evD (prog ty r).
+  Proof. apply cache_D_unfold. exact Hac. Qed.
+
+  (* the frames below a frame of the call get::<cty>(child), down to the top-level call [bot] *)
+  Fixpoint lower_ok (child : ref) (cty : tytag) (st : list frame) (bot : tcall) : Prop :=
     match st with
-    | [] => child = bot
-    | (r, p) :: rest =>
+    | [] => (cty, child) = bot
+    | (r, ty, p) :: rest =>
         match p with
         | InCall _ k => (rank child < rank r)%nat /\ (forall o, bnd (rank r) (k o)) /\
-                      evD (k (D child)) = D r /\ lower_ok r rest bot
+                      evD (k (D cty child)) = D ty r /\ lower_ok r ty rest bot
         | _ => False
         end
     end.
 
-  Definition top_ok (p : pc) (r : ref) : Prop :=
+  (* a value or error found in the cache ([AtHit]) is the answer of the type it was computed as — whatever that
+     type and whatever the error kind; everything this call computed itself is the answer of its own type *)
+  Definition top_ok (p : pc) (r : ref) (ty : tytag) : Prop :=
     match p with
     | AtEnter | AtPushed => True
     | InCall _ _ => False
-    | AtPublish o | AtCached o | AtHit o | AtLeave o => o = D r
+    | AtHit ty' o => o = D ty' r
+    | AtPublish o | AtCached o | AtLeave o => o = D ty r
     end.
 
   Definition pushed (p : pc) : bool := match p with AtEnter => false | _ => true end.
 
-  Definition thread_ok (calls : list ref) (th : thread) (ch : list ref) : Prop :=
+  Definition thread_ok (calls : list tcall) (th : thread) (ch : list ref) : Prop :=
     match stack th with
-    | [] => todo th = [] /\ results th = map D calls /\ ch = []
-    | (r, p) :: rest =>
-        exists bot, top_ok p r /\ lower_ok r rest bot /\
-          results th ++ D bot :: map D (todo th) = map D calls /\
-          ch = rev (map fst rest) ++ (if pushed p then [r] else [])
+    | [] => todo th = [] /\ results th = map Dc calls /\ ch = []
+    | (r, ty, p) :: rest =>
+        exists bot, top_ok p r ty /\ lower_ok r ty rest bot /\
+          results th ++ Dc bot :: map Dc (todo th) = map Dc calls /\
+          ch = rev (map fref rest) ++ (if pushed p then [r] else [])
     end.
 
   (* the frames that have to publish an entry: the compute closure, not the uncached re-load *)
   Definition is_owner (p : pc) : bool :=
     match p with InCall fb _ => negb fb | AtPublish _ => true | _ => false end.
-  Definition owns (st : list frame) (r : ref) : Prop := exists p, In (r, p) st /\ is_owner p = true.
+  Definition owns (st : list frame) (r : ref) : Prop := exists ty p, In (r, ty, p) st /\ is_owner p = true.
 
   Record Inv (g : gstate) : Prop := {
     inv_ab : aborted g = false;
     inv_po : forall rs, poisoned g rs = false;
-    inv_ca : forall r o, cache g r = Some (Computed o) -> o = D r;
+    inv_ca : forall r ty o, cache g r = Some (Computed ty o) -> o = D ty r;
     inv_th : forall t, thread_ok (nth t progs []) (threads g t) (chains g (res_of c t) (tkey c t));
     inv_ow : forall r, cache g r = Some InProcess ->
                        cache_on c = true /\ exists t, owns (stack (threads g t)) r
   }.
 
-  Lemma lower_rank : forall rest r bot x,
-    lower_ok r rest bot -> In x (map fst rest) -> (rank r < rank x)%nat.
+  Lemma lower_rank : forall rest r ty bot x,
+    lower_ok r ty rest bot -> In x (map fref rest) -> (rank r < rank x)%nat.
   Proof.
-    induction rest as [|[r1 p1] rest IH]; intros r bot x H Hin; cbn [map In fst lower_ok] in *; [contradiction|].
+    induction rest as [|[[r1 ty1] p1] rest IH]; intros r ty bot x H Hin; cbn [map In fref fst lower_ok] in *; [contradiction|].
     destruct p1; try contradiction.
     destruct H as (H1 & _ & _ & H4).
     destruct Hin as [<-|Hin]; [exact H1|].
-    specialize (IH _ _ _ H4 Hin). lia.
+    specialize (IH _ _ _ _ H4 Hin). lia.
   Qed.
 
-  Lemma lower_incall : forall rest r bot x p,
-    lower_ok r rest bot -> In (x, p) rest -> exists fb k, p = InCall fb k.
+  Lemma not_in_chain r ty rest bot : lower_ok r ty rest bot -> memN r (rev (map fref rest)) = false.
   Proof.
-    induction rest as [|[r1 p1] rest IH]; intros r bot x p H Hin; cbn [In lower_ok] in *; [contradiction|].
-    destruct p1; try contradiction.
-    destruct H as (_ & _ & _ & H4).
-    destruct Hin as [E|Hin]; [inversion E; subst; eexists; eexists; reflexivity|].
-    exact (IH _ _ _ _ H4 Hin).
+    intros H. destruct (memN r (rev (map fref rest))) eqn:E; [|reflexivity].
+    apply memN_In in E. apply in_rev in E. apply (lower_rank _ _ _ _ _ H) in E. lia.
   Qed.
 
-  Lemma not_in_chain r rest bot : lower_ok r rest bot -> memN r (rev (map fst rest)) = false.
+  Lemma advance_ok fb r ty p rest bot :
+    bnd (rank r) p -> evD p = D ty r -> lower_ok r ty rest bot ->
+    exists r2 ty2 p2 rest2, advance c fb r ty p rest = (r2, ty2, p2) :: rest2 /\ top_ok p2 r2 ty2 /\
+      lower_ok r2 ty2 rest2 bot /\
+      rev (map fref rest2) ++ (if pushed p2 then [r2] else []) = rev (map fref rest) ++ [r].
   Proof.
-    intros H. destruct (memN r (rev (map fst rest))) eqn:E; [|reflexivity].
-    apply memN_In in E. apply in_rev in E. apply (lower_rank _ _ _ _ H) in E. lia.
-  Qed.
-
-  Lemma advance_ok fb r p rest bot :
-    bnd (rank r) p -> evD p = D r -> lower_ok r rest bot ->
-    exists r2 p2 rest2, advance c fb r p rest = (r2, p2) :: rest2 /\ top_ok p2 r2 /\ lower_ok r2 rest2 bot /\
-      rev (map fst rest2) ++ (if pushed p2 then [r2] else []) = rev (map fst rest) ++ [r].
-  Proof.
-    intros Hb He Hl. destruct p as [o|ty r' k]; cbn [advance].
-    - exists r, (if fb then AtLeave o else if cache_on c then AtPublish o else AtCached o), rest.
-      cbn [evalD1] in He. destruct fb; [|destruct (cache_on c)]; cbn [top_ok pushed]; auto.
-    - exists r', AtEnter, ((r, InCall fb k) :: rest).
-      cbn [bounded1] in Hb. destruct Hb as [Hr Hk]. cbn [evalD1] in He.
-      cbn [top_ok pushed lower_ok map fst rev]. rewrite app_nil_r. auto 10.
+    intros Hb He Hl. destruct p as [o|ty' r' k]; cbn [advance].
+    - exists r, ty, (if fb then AtLeave o else if cache_on c then AtPublish o else AtCached o), rest.
+      cbn [evalD] in He. destruct fb; [|destruct (cache_on c)]; cbn [top_ok pushed]; auto.
+    - exists r', ty', AtEnter, ((r, ty, InCall fb k) :: rest).
+      cbn [bounded] in Hb. destruct Hb as [Hr Hk]. cbn [evalD] in He.
+      cbn [top_ok pushed lower_ok map fref fst rev]. rewrite app_nil_r. auto 10.
   Qed.
 
   Lemma owns_cons f st x : owns st x -> owns (f :: st) x.
-  Proof. intros (p & Hi & Ho). exists p. split; [right; exact Hi|exact Ho]. Qed.
+  Proof. intros (ty & p & Hi & Ho). exists ty, p. split; [right; exact Hi|exact Ho]. Qed.
 
-  Lemma owns_tail r p st x : owns ((r, p) :: st) x -> is_owner p = false \/ x <> r -> owns st x.
+  Lemma owns_tail r ty p st x : owns ((r, ty, p) :: st) x -> is_owner p = false \/ x <> r -> owns st x.
   Proof.
-    intros (p' & Hi & Ho) Hn. destruct Hi as [E|Hi]; [|exists p'; auto].
+    intros (ty' & p' & Hi & Ho) Hn. destruct Hi as [E|Hi]; [|exists ty', p'; auto].
     inversion E; subst. destruct Hn as [Hn|Hn]; [congruence|contradiction].
   Qed.
 
-  Lemma owns_advance r p rest : cache_on c = true -> owns (advance c false r p rest) r.
+  Lemma owns_advance r ty p rest : cache_on c = true -> owns (advance c false r ty p rest) r.
   Proof.
-    intros Hc. destruct p as [o|ty r' k]; cbn [advance].
-    - rewrite Hc. exists (AtPublish o). split; [left; reflexivity|reflexivity].
-    - exists (InCall false k). split; [right; left; reflexivity|reflexivity].
+    intros Hc. destruct p as [o|ty' r' k]; cbn [advance].
+    - rewrite Hc. exists ty, (AtPublish o). split; [left; reflexivity|reflexivity].
+    - exists ty, (InCall false k). split; [right; left; reflexivity|reflexivity].
   Qed.
 
-  Lemma owns_advance_rest fb r p rest x : owns rest x -> owns (advance c fb r p rest) x.
+  Lemma owns_advance_rest fb r ty p rest x : owns rest x -> owns (advance c fb r ty p rest) x.
   Proof.
-    intros H. destruct p as [o|ty r' k]; cbn [advance]; repeat apply owns_cons; exact H.
+    intros H. destruct p as [o|ty' r' k]; cbn [advance]; repeat apply owns_cons; exact H.
   Qed.
 
   Lemma chain_frame (ch : N -> N -> list ref) t t' x : t' <> t ->
@@ -277,7 +208,7 @@ Section Safe.
     Inv g ->
     (forall t', t' <> t -> chains' (res_of c t') (tkey c t') = chains g (res_of c t') (tkey c t')) ->
     thread_ok (nth t progs []) th' (chains' (res_of c t) (tkey c t)) ->
-    (forall r o, cache' r = Some (Computed o) -> o = D r) ->
+    (forall r ty o, cache' r = Some (Computed ty o) -> o = D ty r) ->
     (forall r, cache' r = Some InProcess ->
                cache_on c = true /\ exists t2, owns (stack (upd (threads g) t th' t2)) r) ->
     Inv (mkG chains' (poisoned g) cache' (upd (threads g) t th') (aborted g)).
@@ -306,18 +237,19 @@ Section Safe.
   Qed.
 
   Lemma owns_nil x : ~ owns [] x.
-  Proof. intros (p & Hi & _). destruct Hi. Qed.
+  Proof. intros (ty & p & Hi & _). destruct Hi. Qed.
 
   Lemma step_inv g t : Inv g -> Inv (step c prog g t).
   Proof.
-    intros HI. unfold step. rewrite (inv_ab g HI).
-    destruct (stack (threads g t)) as [|[r p] rest] eqn:Hst; [exact HI|].
+    intros HI. unfold step, step_gen. rewrite (inv_ab g HI).
+    destruct (stack (threads g t)) as [|[[r ty] p] rest] eqn:Hst; [exact HI|].
     pose proof (inv_th g HI t) as Hth. unfold thread_ok in Hth. rewrite Hst in Hth.
     destruct Hth as (bot & Htop & Hlow & Hres & Hch).
     cbv zeta. rewrite (inv_po g HI).
-    destruct p as [| |fb k|o|o|o|o]; cbn [pushed top_ok] in Htop, Hch.
+    (* the uncached re-load of this frame (a cached error of any kind, or a value of another type, was found) *)
+    destruct p as [| |fb k|o|o|ty' o|o]; cbn [pushed top_ok] in Htop, Hch.
     - (* AtEnter: push *)
-      rewrite app_nil_r in Hch. rewrite Hch, (not_in_chain _ _ _ Hlow).
+      rewrite app_nil_r in Hch. rewrite Hch, (not_in_chain _ _ _ _ Hlow).
       unfold set_thread, set_chain; cbn [chains poisoned cache threads aborted].
       apply Inv_update.
       + exact HI.
@@ -326,34 +258,34 @@ Section Safe.
         exists bot. cbn [top_ok pushed]. auto.
       + apply HI.
       + apply owners_keep; [exact HI|]. intros x _ Ho. rewrite Hst in Ho. cbn [stack].
-        apply owns_cons. apply (owns_tail _ _ _ _ Ho). left; reflexivity.
+        apply owns_cons. apply (owns_tail _ _ _ _ _ Ho). left; reflexivity.
     - (* AtPushed *)
-      destruct (advance_ok false r (prog r) rest bot (Hac r) (eq_sym (D1_eval prog rank Hac r)) Hlow)
-        as (r2 & p2 & rest2 & Ea & Ht2 & Hl2 & Hc2).
+      destruct (advance_ok false r ty (prog ty r) rest bot (Hac ty r) (eq_sym (D_eval ty r)) Hlow)
+        as (r2 & ty2 & p2 & rest2 & Ea & Ht2 & Hl2 & Hc2).
       assert (Hthk : thread_ok (nth t progs [])
-                (mkThread (advance c false r (prog r) rest) (todo (threads g t)) (results (threads g t)))
+                (mkThread (advance c false r ty (prog ty r) rest) (todo (threads g t)) (results (threads g t)))
                 (chains g (res_of c t) (tkey c t))).
       { unfold thread_ok; cbn [stack todo results]. rewrite Ea. exists bot.
         rewrite Hc2. auto. }
       destruct (cache_on c) eqn:Hc.
-      + destruct (cache g r) as [[|o]|] eqn:Hcr.
+      + destruct (cache g r) as [[|ty' o]|] eqn:Hcr.
         * exact HI.
         * unfold set_thread; cbn [chains poisoned cache threads aborted].
           apply Inv_update.
           -- exact HI.
           -- reflexivity.
           -- unfold thread_ok; cbn [stack todo results]. exists bot. cbn [top_ok pushed].
-             pose proof (inv_ca g HI _ _ Hcr). auto.
+             pose proof (inv_ca g HI _ _ _ Hcr). auto.
           -- apply HI.
           -- apply owners_keep; [exact HI|]. intros x _ Ho. rewrite Hst in Ho. cbn [stack].
-             apply owns_cons. apply (owns_tail _ _ _ _ Ho). left; reflexivity.
+             apply owns_cons. apply (owns_tail _ _ _ _ _ Ho). left; reflexivity.
         * unfold set_thread, set_cache; cbn [chains poisoned cache threads aborted].
           apply Inv_update.
           -- exact HI.
           -- reflexivity.
           -- exact Hthk.
-          -- intros x o Hx. unfold updN in Hx. destruct (x =? r); [discriminate Hx|].
-             exact (inv_ca g HI _ _ Hx).
+          -- intros x tyx o Hx. unfold updN in Hx. destruct (x =? r); [discriminate Hx|].
+             exact (inv_ca g HI _ _ _ Hx).
           -- intros x Hx. split; [exact Hc|]. unfold updN in Hx.
              destruct (N.eqb_spec x r) as [Exr|Hne]; [subst x|].
              ++ exists t. rewrite upd_same. cbn [stack]. apply owns_advance. exact Hc.
@@ -361,7 +293,7 @@ Section Safe.
                 destruct (Nat.eq_dec t2 t) as [->|Hne2];
                   [rewrite upd_same|rewrite upd_other by exact Hne2; exact Ho].
                 cbn [stack]. rewrite Hst in Ho. apply owns_advance_rest.
-                apply (owns_tail _ _ _ _ Ho). left; reflexivity.
+                apply (owns_tail _ _ _ _ _ Ho). left; reflexivity.
       + unfold set_thread; cbn [chains poisoned cache threads aborted].
         apply Inv_update.
         * exact HI.
@@ -369,7 +301,7 @@ Section Safe.
         * exact Hthk.
         * apply HI.
         * apply owners_keep; [exact HI|]. intros x _ Ho. rewrite Hst in Ho. cbn [stack].
-          apply owns_advance_rest. apply (owns_tail _ _ _ _ Ho). left; reflexivity.
+          apply owns_advance_rest. apply (owns_tail _ _ _ _ _ Ho). left; reflexivity.
     - (* InCall *) exact HI.
     - (* AtPublish *)
       unfold set_thread, set_cache; cbn [chains poisoned cache threads aborted].
@@ -377,15 +309,15 @@ Section Safe.
       + exact HI.
       + reflexivity.
       + unfold thread_ok; cbn [stack todo results]. exists bot. cbn [top_ok pushed]. auto.
-      + intros x o' Hx. unfold updN in Hx. destruct (N.eqb_spec x r) as [Exr|Hne]; [subst x|].
-        * congruence.
-        * exact (inv_ca g HI _ _ Hx).
+      + intros x tyx o' Hx. unfold updN in Hx. destruct (N.eqb_spec x r) as [Exr|Hne]; [subst x|].
+        * injection Hx as <- <-. exact Htop.
+        * exact (inv_ca g HI _ _ _ Hx).
       + intros x Hx. unfold updN in Hx. destruct (N.eqb_spec x r) as [Exr|Hne]; [subst x|]; [discriminate Hx|].
         destruct (inv_ow g HI x Hx) as (Hcc & t2 & Ho). split; [exact Hcc|]. exists t2.
         destruct (Nat.eq_dec t2 t) as [->|Hne2];
           [rewrite upd_same|rewrite upd_other by exact Hne2; exact Ho].
         cbn [stack]. rewrite Hst in Ho. apply owns_cons.
-        apply (owns_tail _ _ _ _ Ho). right; exact Hne.
+        apply (owns_tail _ _ _ _ _ Ho). right; exact Hne.
     - (* AtCached *)
       unfold set_thread; cbn [chains poisoned cache threads aborted].
       apply Inv_update.
@@ -394,96 +326,97 @@ Section Safe.
       + unfold thread_ok; cbn [stack todo results]. exists bot. cbn [top_ok pushed]. auto.
       + apply HI.
       + apply owners_keep; [exact HI|]. intros x _ Ho. rewrite Hst in Ho. cbn [stack].
-        apply owns_cons. apply (owns_tail _ _ _ _ Ho). left; reflexivity.
-    - (* AtHit: a cached error is not served, the load is repeated uncached *)
-      assert (Hlv : Inv (set_thread g t (mkThread ((r, AtLeave o) :: rest) (todo (threads g t))
-                                                  (results (threads g t))))).
-      { unfold set_thread; cbn [chains poisoned cache threads aborted].
+        apply owns_cons. apply (owns_tail _ _ _ _ _ Ho). left; reflexivity.
+    - (* AtHit: served only if it is a value of the requested type; otherwise the load is repeated uncached *)
+      assert (Hreload : Inv (set_thread g t (mkThread (advance c true r ty (prog ty r) rest) (todo (threads g t))
+                                                      (results (threads g t))))).
+      { destruct (advance_ok true r ty (prog ty r) rest bot (Hac ty r) (eq_sym (D_eval ty r)) Hlow)
+          as (r2 & ty2 & p2 & rest2 & Ea & Ht2 & Hl2 & Hc2).
+        unfold set_thread; cbn [chains poisoned cache threads aborted].
         apply Inv_update.
         + exact HI.
         + reflexivity.
-        + unfold thread_ok; cbn [stack todo results]. exists bot. cbn [top_ok pushed]. auto.
+        + unfold thread_ok; cbn [stack todo results]. rewrite Ea. exists bot. rewrite Hc2. auto.
         + apply HI.
         + apply owners_keep; [exact HI|]. intros x _ Ho. rewrite Hst in Ho. cbn [stack].
-          apply owns_cons. apply (owns_tail _ _ _ _ Ho). left; reflexivity. }
-      destruct o as [v|e|s|]; try exact Hlv.
-      destruct (advance_ok true r (prog r) rest bot (Hac r) (eq_sym (D1_eval prog rank Hac r)) Hlow)
-        as (r2 & p2 & rest2 & Ea & Ht2 & Hl2 & Hc2).
+          apply owns_advance_rest. apply (owns_tail _ _ _ _ _ Ho). left; reflexivity. }
+      destruct o as [v|e|s|]; try exact Hreload.
+      destruct (N.eqb_spec ty' ty) as [Ety|Hne]; [subst ty'|exact Hreload].
       unfold set_thread; cbn [chains poisoned cache threads aborted].
       apply Inv_update.
       + exact HI.
       + reflexivity.
-      + unfold thread_ok; cbn [stack todo results]. rewrite Ea. exists bot. rewrite Hc2. auto.
+      + unfold thread_ok; cbn [stack todo results]. exists bot. cbn [top_ok pushed]. auto.
       + apply HI.
       + apply owners_keep; [exact HI|]. intros x _ Ho. rewrite Hst in Ho. cbn [stack].
-        apply owns_advance_rest. apply (owns_tail _ _ _ _ Ho). left; reflexivity.
+        apply owns_cons. apply (owns_tail _ _ _ _ _ Ho). left; reflexivity.
     - (* AtLeave: pop *)
       rewrite Hch, split_last_app, N.eqb_refl.
       unfold set_thread, set_chain; cbn [chains poisoned cache threads aborted].
-      destruct rest as [|[r' p'] rest'].
+      destruct rest as [|[[r' ty'] p'] rest'].
       + cbn [lower_ok] in Hlow. subst bot. subst o. cbn [return_to].
         apply Inv_update.
         * exact HI.
         * intros t' Hne. apply chain_frame. exact Hne.
         * rewrite chain_self. cbn [map rev].
-          destruct (todo (threads g t)) as [|r1 todo'] eqn:Htd;
+          destruct (todo (threads g t)) as [|[ty1 r1] todo'] eqn:Htd;
             unfold next_call, thread_ok; cbn [stack todo results].
           -- cbn [map] in Hres. auto.
-          -- exists r1. cbn [top_ok lower_ok pushed map rev app].
+          -- exists (ty1, r1). cbn [top_ok lower_ok pushed map rev app].
              rewrite <- app_assoc. cbn [app map] in Hres |- *. auto.
         * apply HI.
         * apply owners_keep; [exact HI|]. intros x _ Ho. rewrite Hst in Ho.
-          exfalso. apply (owns_nil x). apply (owns_tail _ _ _ _ Ho). left; reflexivity.
-      + cbn [lower_ok] in Hlow. destruct p' as [| |fb k|o'|o'|o'|o']; try contradiction.
+          exfalso. apply (owns_nil x). apply (owns_tail _ _ _ _ _ Ho). left; reflexivity.
+      + cbn [lower_ok] in Hlow. destruct p' as [| |fb k|o'|o'|ty'' o'|o']; try contradiction.
         destruct Hlow as (Hrk & Hbk & Hev & Hlow'). subst o. cbn [return_to].
-        destruct (advance_ok fb r' (k (D r)) rest' bot (Hbk _) Hev Hlow')
-          as (r2 & p2 & rest2 & Ea & Ht2 & Hl2 & Hc2).
+        destruct (advance_ok fb r' ty' (k (D ty r)) rest' bot (Hbk _) Hev Hlow')
+          as (r2 & ty2 & p2 & rest2 & Ea & Ht2 & Hl2 & Hc2).
         apply Inv_update.
         * exact HI.
         * intros t' Hne. apply chain_frame. exact Hne.
         * rewrite chain_self. unfold thread_ok; cbn [stack todo results]. rewrite Ea.
-          exists bot. rewrite Hc2. cbn [map fst rev]. auto.
+          exists bot. rewrite Hc2. cbn [map fref fst rev]. auto.
         * apply HI.
         * apply owners_keep; [exact HI|]. intros x Hcc Ho. rewrite Hst in Ho. cbn [stack].
           apply owns_tail in Ho; [|left; reflexivity].
           destruct fb.
-          -- apply owns_advance_rest. apply (owns_tail _ _ _ _ Ho). left; reflexivity.
+          -- apply owns_advance_rest. apply (owns_tail _ _ _ _ _ Ho). left; reflexivity.
           -- destruct (N.eq_dec x r') as [->|Hne].
              ++ apply owns_advance. exact Hcc.
-             ++ apply owns_advance_rest. apply (owns_tail _ _ _ _ Ho). right; exact Hne.
+             ++ apply owns_advance_rest. apply (owns_tail _ _ _ _ _ Ho). right; exact Hne.
   Qed.
 
   (** deadlock freedom: a blocked thread waits for an entry whose owner is enabled or itself blocked on a
       reference of strictly smaller rank *)
   Lemma progress g : Inv g ->
-    forall m t r p rest, stack (threads g t) = (r, p) :: rest -> (rank r < m)%nat ->
+    forall m t r ty p rest, stack (threads g t) = (r, ty, p) :: rest -> (rank r < m)%nat ->
     exists t', enabled c g t' = true.
   Proof.
-    intros HI. induction m as [|m IH]; intros t r p rest Hst Hr; [lia|].
+    intros HI. induction m as [|m IH]; intros t r ty p rest Hst Hr; [lia|].
     pose proof (inv_th g HI t) as Hth. unfold thread_ok in Hth. rewrite Hst in Hth.
     destruct Hth as (bot & Htop & Hlow & _ & _).
     assert (Hen : enabled c g t = true \/ (p = AtPushed /\ cache g r = Some InProcess)).
     { unfold enabled. rewrite (inv_ab g HI), Hst. cbn [negb andb].
       destruct p; cbn [top_ok] in Htop; auto; try contradiction.
-      destruct (cache_on c); auto. destruct (cache g r) as [[|o]|]; auto. }
+      destruct (cache_on c); auto. destruct (cache g r) as [[|ty' o]|]; auto. }
     destruct Hen as [Hen|[-> Hcr]]; [exists t; exact Hen|].
-    destruct (inv_ow g HI r Hcr) as (_ & t2 & p2 & Hin & Hown).
-    destruct (stack (threads g t2)) as [|[r2 p2'] rest2] eqn:Hst2; [destruct Hin|].
+    destruct (inv_ow g HI r Hcr) as (_ & t2 & ty2 & p2 & Hin & Hown).
+    destruct (stack (threads g t2)) as [|[[r2 ty2'] p2'] rest2] eqn:Hst2; [destruct Hin|].
     pose proof (inv_th g HI t2) as Hth2. unfold thread_ok in Hth2. rewrite Hst2 in Hth2.
     destruct Hth2 as (bot2 & Htop2 & Hlow2 & _ & _).
     destruct Hin as [E|Hin].
-    - inversion E; subst r2 p2'. exists t2. unfold enabled. rewrite (inv_ab g HI), Hst2.
+    - inversion E; subst r2 ty2' p2'. exists t2. unfold enabled. rewrite (inv_ab g HI), Hst2.
       destruct p2; cbn [is_owner] in Hown; try discriminate Hown; [contradiction Htop2|reflexivity].
-    - apply (IH t2 r2 p2' rest2 Hst2).
-      apply (in_map fst) in Hin. cbn [fst] in Hin.
-      pose proof (lower_rank _ _ _ _ Hlow2 Hin). lia.
+    - apply (IH t2 r2 ty2' p2' rest2 Hst2).
+      apply (in_map fref) in Hin. cbn [fref fst] in Hin.
+      pose proof (lower_rank _ _ _ _ _ Hlow2 Hin). lia.
   Qed.
 
   Lemma stack_nonempty_lt g t : Inv g -> stack (threads g t) <> [] -> (t < length progs)%nat.
   Proof.
     intros HI Hne. destruct (Nat.lt_ge_cases t (length progs)) as [H|H]; [exact H|]. exfalso.
     pose proof (inv_th g HI t) as Hth. rewrite (nth_overflow _ _ H) in Hth. unfold thread_ok in Hth.
-    destruct (stack (threads g t)) as [|[r p] rest]; [congruence|].
+    destruct (stack (threads g t)) as [|[[r ty] p] rest]; [congruence|].
     destruct Hth as (bot & _ & _ & Hres & _). cbn [map] in Hres.
     exact (app_cons_not_nil _ _ _ (eq_sym Hres)).
   Qed.
@@ -494,8 +427,8 @@ Section Safe.
     destruct (all_finished g (length progs)) eqn:Haf; [reflexivity|]. cbn [negb andb].
     destruct (first_enabled c g (length progs) 0%nat) eqn:Hfe; [reflexivity|]. exfalso.
     apply all_finished_false in Haf. destruct Haf as (t & Ht & Hf).
-    unfold finished in Hf. destruct (stack (threads g t)) as [|[r p] rest] eqn:Hst; [discriminate Hf|].
-    destruct (progress g HI (S (rank r)) t r p rest Hst (Nat.lt_succ_diag_r _)) as (t' & Hen).
+    unfold finished in Hf. destruct (stack (threads g t)) as [|[[r ty] p] rest] eqn:Hst; [discriminate Hf|].
+    destruct (progress g HI (S (rank r)) t r ty p rest Hst (Nat.lt_succ_diag_r _)) as (t' & Hen).
     assert (Hlt : (t' < length progs)%nat).
     { apply (stack_nonempty_lt g t' HI). intros E. unfold enabled in Hen. rewrite E in Hen.
       rewrite andb_false_r in Hen. discriminate Hen. }
@@ -506,11 +439,11 @@ Section Safe.
   Proof.
     intros HI. split; [apply HI|]. split; [apply HI|]. split; [|split].
     - intros t. pose proof (inv_th g HI t) as Hth. unfold thread_ok in Hth.
-      destruct (stack (threads g t)) as [|[r p] rest].
+      destruct (stack (threads g t)) as [|[[r ty] p] rest].
       + destruct Hth as (_ & Hr & _). exists (length (nth t progs [])). rewrite firstn_all. exact Hr.
       + destruct Hth as (bot & _ & _ & Hres & _). eexists. exact (map_prefix _ _ _ _ Hres).
     - intros t Hf. unfold finished in Hf. pose proof (inv_th g HI t) as Hth. unfold thread_ok in Hth.
-      destruct (stack (threads g t)) as [|[r p] rest]; [|discriminate Hf]. apply Hth.
+      destruct (stack (threads g t)) as [|[[r ty] p] rest]; [|discriminate Hf]. apply Hth.
     - apply no_deadlock. exact HI.
   Qed.
 
@@ -531,12 +464,12 @@ Section Safe.
     unfold ginit. constructor; cbn [aborted poisoned cache threads chains].
     - reflexivity.
     - reflexivity.
-    - intros r o H. discriminate H.
+    - intros r ty o H. discriminate H.
     - intros t. rewrite init_threads_spec. cbn [Nat.leb]. rewrite Nat.sub_0_r.
-      generalize (nth t progs []) as calls. intros [|r0 calls];
+      generalize (nth t progs []) as calls. intros [|[ty0 r0] calls];
         unfold thread_ok, init_thread, next_call; cbn [stack todo results].
       + auto.
-      + exists r0. cbn [top_ok lower_ok pushed map rev app]. auto.
+      + exists (ty0, r0). cbn [top_ok lower_ok pushed map rev app]. auto.
     - intros r H. discriminate H.
   Qed.
 
@@ -547,64 +480,64 @@ Section Safe.
   Qed.
 
   (** * termination: a step of an enabled thread decreases the remaining work *)
-  Fixpoint pcostn (d : ref -> nat) (p : comp) : nat :=
+  Fixpoint pcostn (d : tytag -> ref -> nat) (p : comp) : nat :=
     match p with
     | Ret _ => O
-    | Call _ r k => (d r + pcostn d (k (D r)))%nat
+    | Call ty r k => (d ty r + pcostn d (k (D ty r)))%nat
     end.
 
-  (* number of steps of one get of r when nothing is cached *)
-  Fixpoint costn (n : nat) (r : ref) : nat :=
+  (* number of steps of one get::<ty>(r) when nothing is cached *)
+  Fixpoint costn (n : nat) (ty : tytag) (r : ref) : nat :=
     match n with
     | O => O
-    | S m => (5 + pcostn (costn m) (prog r))%nat
+    | S m => (5 + pcostn (costn m) (prog ty r))%nat
     end.
 
-  Definition cost (r : ref) : nat := costn (S (rank r)) r.
+  Definition cost (ty : tytag) (r : ref) : nat := costn (S (rank r)) ty r.
   Notation pcost := (pcostn cost).
 
   Lemma pcostn_ext d1 d2 b p :
-    bnd b p -> (forall r, (rank r < b)%nat -> d1 r = d2 r) -> pcostn d1 p = pcostn d2 p.
+    bnd b p -> (forall ty r, (rank r < b)%nat -> d1 ty r = d2 ty r) -> pcostn d1 p = pcostn d2 p.
   Proof.
-    induction p as [o|ty r' k IH]; cbn [pcostn bounded1]; intros Hb Hd; [reflexivity|].
-    destruct Hb as [Hr Hk]. rewrite (Hd r' Hr). f_equal. apply IH; [apply Hk|exact Hd].
+    induction p as [o|ty r' k IH]; cbn [pcostn bounded]; intros Hb Hd; [reflexivity|].
+    destruct Hb as [Hr Hk]. rewrite (Hd ty r' Hr). f_equal. apply IH; [apply Hk|exact Hd].
   Qed.
 
-  Lemma costn_stable : forall n m r, (rank r < n)%nat -> (rank r < m)%nat -> costn n r = costn m r.
+  Lemma costn_stable : forall n m ty r, (rank r < n)%nat -> (rank r < m)%nat -> costn n ty r = costn m ty r.
   Proof.
-    induction n as [|n IH]; intros m r Hn Hm; [lia|].
+    induction n as [|n IH]; intros m ty r Hn Hm; [lia|].
     destruct m as [|m]; [lia|].
     cbn [costn]. f_equal. apply pcostn_ext with (b := rank r); [apply Hac|].
-    intros r' Hr'. apply IH; lia.
+    intros ty' r' Hr'. apply IH; lia.
   Qed.
 
-  Lemma cost_eq r : cost r = (5 + pcost (prog r))%nat.
+  Lemma cost_eq ty r : cost ty r = (5 + pcost (prog ty r))%nat.
   Proof.
     unfold cost at 1. cbn [costn]. f_equal.
     apply pcostn_ext with (b := rank r); [apply Hac|].
-    intros r' Hr'. unfold cost. apply costn_stable; lia.
+    intros ty' r' Hr'. unfold cost. apply costn_stable; lia.
   Qed.
 
-  Definition top_meas (p : pc) (r : ref) : nat :=
+  Definition top_meas (p : pc) (r : ref) (ty : tytag) : nat :=
     match p with
-    | AtEnter => cost r
-    | AtPushed => 4 + pcost (prog r)
+    | AtEnter => cost ty r
+    | AtPushed => 4 + pcost (prog ty r)
     | InCall _ _ => 0
     | AtPublish _ => 3
     | AtCached _ => 2
-    | AtHit _ => 2 + pcost (prog r)
+    | AtHit _ _ => 2 + pcost (prog ty r)
     | AtLeave _ => 1
     end%nat.
 
   (* steps left after the computation of a frame returned: publish, cached, leave / leave *)
   Definition tailw (fb : bool) : nat := if fb then 1%nat else 3%nat.
 
-  Fixpoint lmeas (child : ref) (st : list frame) : nat :=
+  Fixpoint lmeas (child : ref) (cty : tytag) (st : list frame) : nat :=
     match st with
     | [] => O
-    | (r, p) :: rest =>
+    | (r, ty, p) :: rest =>
         match p with
-        | InCall fb k => (tailw fb + pcost (k (D child)) + lmeas r rest)%nat
+        | InCall fb k => (tailw fb + pcost (k (D cty child)) + lmeas r ty rest)%nat
         | _ => O
         end
     end.
@@ -612,15 +545,16 @@ Section Safe.
   Definition smeas (st : list frame) : nat :=
     match st with
     | [] => O
-    | (r, p) :: rest => (top_meas p r + lmeas r rest)%nat
+    | (r, ty, p) :: rest => (top_meas p r ty + lmeas r ty rest)%nat
     end.
 
-  Definition tmeas (th : thread) : nat := (smeas (stack th) + list_sum (map cost (todo th)))%nat.
+  Definition tmeas (th : thread) : nat :=
+    (smeas (stack th) + list_sum (map (fun cl => cost (fst cl) (snd cl)) (todo th)))%nat.
 
-  Lemma advance_meas fb r p rest :
-    (smeas (advance c fb r p rest) <= tailw fb + pcost p + lmeas r rest)%nat.
+  Lemma advance_meas fb r ty p rest :
+    (smeas (advance c fb r ty p rest) <= tailw fb + pcost p + lmeas r ty rest)%nat.
   Proof.
-    destruct p as [o|ty r' k]; cbn [advance smeas].
+    destruct p as [o|ty' r' k]; cbn [advance smeas].
     - destruct fb; [|destruct (cache_on c)]; cbn [top_meas pcostn tailw]; lia.
     - cbn [top_meas lmeas pcostn]. lia.
   Qed.
@@ -630,37 +564,37 @@ Section Safe.
                 (tmeas th' < tmeas (threads g t))%nat.
   Proof.
     intros HI Hen. unfold enabled in Hen. rewrite (inv_ab g HI) in Hen. cbn [negb andb] in Hen.
-    unfold step. rewrite (inv_ab g HI).
-    destruct (stack (threads g t)) as [|[r p] rest] eqn:Hst; [discriminate Hen|].
+    unfold step, step_gen. rewrite (inv_ab g HI).
+    destruct (stack (threads g t)) as [|[[r ty] p] rest] eqn:Hst; [discriminate Hen|].
     pose proof (inv_th g HI t) as Hth. unfold thread_ok in Hth. rewrite Hst in Hth.
     destruct Hth as (bot & Htop & Hlow & Hres & Hch).
     cbv zeta. rewrite (inv_po g HI).
     unfold tmeas at 2. rewrite Hst.
-    pose proof (advance_meas false r (prog r) rest) as Hadv.
-    pose proof (advance_meas true r (prog r) rest) as Hadv'.
+    pose proof (advance_meas false r ty (prog ty r) rest) as Hadv.
+    pose proof (advance_meas true r ty (prog ty r) rest) as Hadv'.
     cbn [tailw] in Hadv, Hadv'.
-    destruct p as [| |fb k|o|o|o|o]; cbn [pushed top_ok] in Htop, Hch; cbn [smeas top_meas].
-    - rewrite app_nil_r in Hch. rewrite Hch, (not_in_chain _ _ _ Hlow).
+    destruct p as [| |fb k|o|o|ty' o|o]; cbn [pushed top_ok] in Htop, Hch; cbn [smeas top_meas].
+    - rewrite app_nil_r in Hch. rewrite Hch, (not_in_chain _ _ _ _ Hlow).
       eexists. split; [reflexivity|]. unfold tmeas; cbn [stack todo smeas top_meas].
       rewrite cost_eq. lia.
     - destruct (cache_on c).
-      + destruct (cache g r) as [[|o]|]; [discriminate Hen| |];
+      + destruct (cache g r) as [[|ty' o]|]; [discriminate Hen| |];
           (eexists; split; [reflexivity|]); unfold tmeas; cbn [stack todo smeas top_meas]; lia.
       + eexists. split; [reflexivity|]. unfold tmeas; cbn [stack todo]. lia.
     - discriminate Hen.
     - eexists. split; [reflexivity|]. unfold tmeas; cbn [stack todo smeas top_meas]. lia.
     - eexists. split; [reflexivity|]. unfold tmeas; cbn [stack todo smeas top_meas]. lia.
-    - destruct o as [v|e|s|]; (eexists; split; [reflexivity|]);
+    - destruct o as [v|e|s|]; [destruct (ty' =? ty)| | |]; (eexists; split; [reflexivity|]);
         unfold tmeas; cbn [stack todo smeas top_meas]; lia.
     - rewrite Hch, split_last_app, N.eqb_refl.
       eexists. split; [reflexivity|].
-      destruct rest as [|[r' p'] rest'].
+      destruct rest as [|[[r' ty'] p'] rest'].
       + cbn [return_to].
-        destruct (todo (threads g t)) as [|r1 todo'] eqn:Htd;
-          unfold next_call, tmeas; cbn [stack todo results smeas top_meas lmeas map list_sum fold_right]; lia.
-      + cbn [lower_ok] in Hlow. destruct p' as [| |fb k|o'|o'|o'|o']; try contradiction.
+        destruct (todo (threads g t)) as [|[ty1 r1] todo'] eqn:Htd;
+          unfold next_call, tmeas; cbn [stack todo results smeas top_meas lmeas map list_sum fold_right fst snd]; lia.
+      + cbn [lower_ok] in Hlow. destruct p' as [| |fb k|o'|o'|ty'' o'|o']; try contradiction.
         subst o. cbn [return_to]. unfold tmeas; cbn [stack todo lmeas].
-        pose proof (advance_meas fb r' (k (D r)) rest'). lia.
+        pose proof (advance_meas fb r' ty' (k (D ty r)) rest'). lia.
   Qed.
 
   Fixpoint musum (f : tid -> nat) (n : nat) : nat :=
@@ -730,7 +664,7 @@ Section Safe.
 End Safe.
 
 Theorem conc_per_thread_chain : forall c prog rank,
-  per_thread c = true -> acyclic1 prog rank -> conc_statement c prog (D1 prog rank).
+  per_thread c = true -> acyclic prog rank -> conc_statement c prog (D prog rank).
 Proof.
   intros c prog rank Hpt Hac progs sched.
   apply (Inv_state_ok c prog rank progs).
@@ -749,8 +683,8 @@ Proof.
 Qed.
 
 Corollary conc_per_thread_complete : forall c prog rank progs sched fuel,
-  per_thread c = true -> acyclic1 prog rank ->
-  state_ok c (D1 prog rank) progs
+  per_thread c = true -> acyclic prog rank ->
+  state_ok c (D prog rank) progs
            (complete c prog fuel (length progs) (run_sched c prog (ginit progs) sched)).
 Proof.
   intros c prog rank progs sched fuel Hpt Hac.
@@ -761,7 +695,7 @@ Proof.
 Qed.
 
 Definition conc_full_statement : Prop :=
-  forall c prog fuel, conc_statement c prog (fun r => fst (get no_cache (fun _ => prog) fuel [] 0 r init)).
+  forall c prog fuel, conc_statement c prog (fun ty r => fst (get no_cache prog fuel [] ty r init)).
 
 (** * refutations (C13-a: guard stack shared by all threads; C13-b: cyclic eager references) *)
 
@@ -769,9 +703,9 @@ Theorem conc_refuted_shared_chain : exists prog progs sched,
   let c := mkCcfg true false false in
   let g := complete c prog 100 (length progs) (run_sched c prog (ginit progs) sched) in
   results (threads g 1%nat) = [Err E_OTHER] /\
-  (forall fuel, fst (get no_cache (fun _ => prog) (S fuel) [] 0 1 init) = Ok 5).
+  (forall fuel, fst (get no_cache prog (S fuel) [] 0 1 init) = Ok 5).
 Proof.
-  exists (fun _ => Ret (Ok 5)), [[1];[1]], [0%nat; 1%nat].
+  exists (fun _ _ => Ret (Ok 5)), [[(0, 1)];[(0, 1)]], [0%nat; 1%nat].
   split; [vm_compute; reflexivity|]. intros fuel. reflexivity.
 Qed.
 
@@ -780,7 +714,7 @@ Theorem conc_refuted_pop_assert : exists prog progs sched,
   let g := complete c prog 100 (length progs) (run_sched c prog (ginit progs) sched) in
   poisoned g 0 = true /\ results (threads g 0%nat) = [Panic 1] /\ results (threads g 1%nat) = [Panic 1].
 Proof.
-  exists (fun _ => Ret (Ok 5)), [[1];[2]], [0%nat; 1%nat; 0%nat; 0%nat; 0%nat].
+  exists (fun _ _ => Ret (Ok 5)), [[(0, 1)];[(0, 2)]], [0%nat; 1%nat; 0%nat; 0%nat; 0%nat].
   vm_compute. auto.
 Qed.
 
@@ -788,7 +722,7 @@ Theorem conc_refuted_abort : exists prog progs sched,
   let c := mkCcfg true false false in
   aborted (complete c prog 100 (length progs) (run_sched c prog (ginit progs) sched)) = true.
 Proof.
-  exists (fun r => if r =? 1 then Call 0 2 (fun o => Ret o) else Ret (Ok 5)), [[1];[3]],
+  exists (fun _ r => if r =? 1 then Call 0 2 (fun o => Ret o) else Ret (Ok 5)), [[(0, 1)];[(0, 3)]],
          [0%nat; 0%nat; 0%nat; 1%nat; 0%nat].
   vm_compute. reflexivity.
 Qed.
@@ -797,16 +731,16 @@ Theorem conc_cyclic_deadlock : exists prog progs sched,
   let c := mkCcfg true true true in
   deadlocked c (complete c prog 100 (length progs) (run_sched c prog (ginit progs) sched)) (length progs) = true.
 Proof.
-  exists (fun r => if r =? 1 then Call 0 2 (fun o => Ret o)
-                   else if r =? 2 then Call 0 1 (fun o => Ret o) else Ret (Ok 5)),
-         [[1];[2]], [0%nat; 0%nat; 1%nat; 1%nat].
+  exists (fun _ r => if r =? 1 then Call 0 2 (fun o => Ret o)
+                     else if r =? 2 then Call 0 1 (fun o => Ret o) else Ret (Ok 5)),
+         [[(0, 1)];[(0, 2)]], [0%nat; 0%nat; 1%nat; 1%nat].
   vm_compute. reflexivity.
 Qed.
 
 Theorem conc_full_refuted : ~ conc_full_statement.
 Proof.
   intros H.
-  specialize (H (mkCcfg true false false) (fun _ => Ret (Ok 5)) 1%nat [[1];[1]] [0%nat; 1%nat]).
+  specialize (H (mkCcfg true false false) (fun _ _ => Ret (Ok 5)) 1%nat [[(0, 1)];[(0, 1)]] [0%nat; 1%nat]).
   destruct H as (_ & _ & Hp & _). specialize (Hp 1%nat). destruct Hp as (k & Hk).
   vm_compute in Hk. destruct k as [|k]; [discriminate Hk|].
   destruct k; discriminate Hk.
@@ -814,7 +748,7 @@ Qed.
 
 (** every run of the fixed code on an acyclic document terminates with all threads finished *)
 Theorem conc_terminates : forall c prog rank progs sched,
-  per_thread c = true -> acyclic1 prog rank ->
+  per_thread c = true -> acyclic prog rank ->
   exists fuel, all_finished (complete c prog fuel (length progs) (run_sched c prog (ginit progs) sched))
                             (length progs) = true.
 Proof.
